@@ -1,6 +1,7 @@
 (* C12 -- Overlap lookup equals a brute-force scan of the scaffold.
    Only statements, each closed by [exact] of a lemma from Proofs/Lookup.v. *)
 From Tola Require Import Py.Base Model.Fragment Model.Lookup Proofs.Lookup.
+From Tola Require Proofs.Fuel.
 
 (* For every non-empty scaffold whose rows are at least 1 bp long and every
    query 1 <= a <= b (including queries ending past the scaffold end) the
@@ -40,6 +41,12 @@ Theorem C12_brute_force_spec : forall rows bs be,
   pos_rows rows -> lookup_spec rows bs be (brute_force rows bs be).
 Proof. exact brute_force_spec. Qed.
 Print Assumptions C12_brute_force_spec.
+
+(* for EVERY row list (zero-length rows included) and every query the fuelled
+   loops of the model terminate within their fuel *)
+Theorem C12_never_out_of_fuel : forall rows a b, find_overlaps rows a b <> Err OutOfFuel.
+Proof. exact Proofs.Fuel.find_overlaps_never_out_of_fuel. Qed.
+Print Assumptions C12_never_out_of_fuel.
 
 (* the code at the pinned commit (gap-stripping loops not bounded) fails on a
    query touching only a trailing gap: the defect repaired by the fix commit *)
